@@ -457,6 +457,17 @@ def _pickup_solve_history(args):
     except Exception:
         return r.events, r.calls
     r.solve_add(ks, rnd.choice([0.0, rnd.uniform(-1, 1)]))
+    if rnd.random() < 0.5:
+        # a second solve on the other plane: half of the time it is added in descending surface
+        # order (update() must still establish both: spec/UpdateOrder.tla, SolvesHold)
+        k2 = (n - 1) if ks == n - 2 else (n - 2)
+        try:
+            ya, ua = r.optic.paraxial.marginal_ray()
+            ok = abs(float(np.ravel(ua)[k2 - 1])) >= 1e-3 and bool(np.all(np.isfinite(ya)))
+        except Exception:
+            ok = False
+        if ok:
+            r.solve_add(k2, rnd.choice([0.0, rnd.uniform(-1, 1)]))
     for _ in range(rnd.randint(2, 4)):
         if attr == "radius":
             r.set_radius(rnd.choice([-1, 1]) * rnd.uniform(30.0, 200.0), src)
